@@ -4,6 +4,7 @@ DES = "hippolyzer/lib/base/message/udpdeserializer.py"
 MSG = "hippolyzer/lib/base/message/message.py"
 PACK = "hippolyzer/lib/base/message/data_packer.py"
 DT = "hippolyzer/lib/base/datatypes.py"
+SERLIB = "hippolyzer/lib/base/serialization.py"
 
 _TRY_EXCEPT = (
     "        try:\n"
@@ -272,6 +273,22 @@ VARIANTS = [
          "new": "            return struct_obj.pack(*_first(x, needed_elems))"},
         {"file": PACK, "old": "def _make_tuplecoord_spec(",
          "new": "def _first(x, n):\n    if isinstance(x, TupleCoord):\n        x = x.data()\n    return x[:n]\n\n\ndef _make_tuplecoord_spec("}]},
+    # ------------------------------------------------------------------ R8 / R9
+    {"name": "R8 to_dict hands out the blocks' own variable dicts", "file": MSG, "expect": "C02.R8",
+     "old": "                new_vars = {}\n                for var_name, val in block.items():\n                    new_vars[var_name] = val\n"
+            "                dict_blocks.append(new_vars)\n",
+     "new": "                dict_blocks.append(block.vars)\n"},
+    {"name": "P R8 to_dict copies each block's variables with dict()", "file": MSG, "expect": "silent",
+     "old": "                new_vars = {}\n                for var_name, val in block.items():\n                    new_vars[var_name] = val\n"
+            "                dict_blocks.append(new_vars)\n",
+     "new": "                dict_blocks.append(dict(block.vars))\n"},
+    {"name": "R9 read_bytes clamps the end position before its bounds check", "file": SERLIB, "expect": "C02.R9",
+     "old": "        end_pos = self._pos + num_bytes\n        if end_pos > self._len and check_len:",
+     "new": "        end_pos = min(self._pos + num_bytes, self._len)\n        if end_pos > self._len and check_len:"},
+    {"name": "R9 read_bytes bounds check dropped", "file": SERLIB, "expect": "C02.R9",
+     "old": "        if end_pos > self._len and check_len:\n            raise ValueError(f\"{len(self)} bytes left, needed {num_bytes}\")\n", "new": ""},
+    {"name": "P R9 bounds check phrased on the remaining length", "file": SERLIB, "expect": "silent",
+     "old": "        if end_pos > self._len and check_len:", "new": "        if check_len and num_bytes > self._len - self._pos:"},
     # ------------------------------------------------------------------ R5 breaking
     {"name": "R5 writer skips on truthiness", "file": SER, "expect": "C02.R5",
      "old": "if block_list is None:", "new": "if not block_list:"},
